@@ -193,6 +193,12 @@ pub fn eval(ctx: &Ctx, case: &Case) {
                         ctx.violation("Sm2PrivateKey::to_hex_string", &format!("wrong-hex/{}", tag), h.clone(), cj());
                     }
                     same_priv(ctx, "Sm2PrivateKey::from_hex_string", tag, guard(|| Sm2PrivateKey::from_hex_string(&h)), &d, &cj);
+                    // upper case: accepted (then the same key) or refused, never another key and never a panic
+                    match guard(|| Sm2PrivateKey::from_hex_string(&h.to_uppercase())) {
+                        Guard::Done(Ok(sk2)) if refmodels::util::from_limbs(&sk2.d) != d => ctx.violation("Sm2PrivateKey::from_hex_string", &format!("decodes-to-different-key/uppercase/{}", tag), String::new(), cj()),
+                        Guard::Panic(p) => ctx.violation("Sm2PrivateKey::from_hex_string", &format!("panic/{}/uppercase", panic_site(&p)), p, cj()),
+                        _ => {}
+                    }
                 }
                 Guard::Panic(p) => ctx.violation("Sm2PrivateKey::to_hex_string", &format!("panic/{}", panic_site(&p)), p, cj()),
             }
